@@ -11,6 +11,7 @@ def build(tier, seed):
         PUnit("direction-restriction", [R.IS_RESTRICTED], R.REG),
         PUnit("distance-milestones", [R.MILESTONES_C], R.REG),
         PUnit("distance-restraint-bounds", [R.SET_DR], R.REG),
+        PUnit("tree-path-to-the-reference", [R.ALL_PRED], R.REG_PRE),
         LUnit("min-image-distance-unique", R.lemma_min_image_unique),
         LUnit("accepted-point-meets-restraints", R.lemma_accepted_point_meets_restraints),
     ] + [u for u in b_coords.UNITS if u.name == "c07-restraints"]
